@@ -87,7 +87,7 @@ func runSimCheck(spec *simCheckSpec, args []string) int {
 		remaining := total - time.Since(start)
 		levelBudget := remaining
 		if d < maxD {
-			levelBudget = remaining * 35 / 100
+			levelBudget = remaining * 50 / 100
 		}
 		levelStart := time.Now()
 		for i, sc := range elig {
